@@ -1,6 +1,9 @@
 package main
 
 import (
+	"encoding/json"
+	"os"
+	"sort"
 	"time"
 )
 
@@ -33,6 +36,44 @@ func kfWhat(id string) string {
 }
 
 var knownFindings = map[string]string{}
+var knownFindingProp = map[string]string{}
+
+// loadKnownFindings reads /verif/known_findings.json (read-only at run time): only status=open entries are enabled.
+func loadKnownFindings() {
+	path := os.Getenv("VERIF_KNOWN_FINDINGS")
+	if path == "" {
+		path = "/verif/known_findings.json"
+	}
+	b, err := os.ReadFile(path)
+	if err != nil {
+		return
+	}
+	var kf struct {
+		Findings []struct {
+			ID, Status, Property, What string
+		} `json:"findings"`
+	}
+	if json.Unmarshal(b, &kf) != nil {
+		return
+	}
+	for _, f := range kf.Findings {
+		if f.Status == "open" {
+			knownFindings[f.ID] = f.What
+			knownFindingProp[f.ID] = f.Property
+		}
+	}
+}
+
+func openKF(prop string) []string {
+	out := []string{}
+	for id, p := range knownFindingProp {
+		if p == prop {
+			out = append(out, id)
+		}
+	}
+	sort.Strings(out)
+	return out
+}
 
 func tierS(tier, q, t string) string {
 	if tier == "thorough" {
@@ -56,6 +97,7 @@ func seqProfile(prop, tier string) *SeqProfile {
 	if p == nil {
 		return nil
 	}
+	p.KF = openKF(prop)
 	switch prop {
 	case "C01", "C02", "C03", "C04", "C12":
 		p.Design, p.GenSpec = segDesign(tier, "core"), segGen(tier, "core", false, false)
